@@ -39,40 +39,75 @@ def run(facts, res):
         return
     du = du_of(b)
     cfg = cfg_of(b)
-    pushes = [(bi, t) for bi, t in b.calls() if t.callee is not None and t.callee.name == "push_back"]
-    res.floor("T1", "work-list push sites", len(pushes), 2)
-    seen_parent = seen_heads = False
-    for bi, t in pushes:
-        v = arg_term(b, t, 1, 30)
-        names = [callee_name(x) for x in walk(v, False) if x[0] == "call"]
-        partial = bool(set(names) & {"take", "skip", "filter", "step_by", "take_while", "skip_while", "rev"})
-        if any(x[0] == "field" and x[2] == "parents" for x in walk(v)):
-            st = c02.status_guard(b, bi, facts)
-            applied = any(l.kind == "call" and callee_name(l.term) == "is_ok" and l.truth is True and contains_call(l.term[2][0], R.name("applier"))
-                          for l in lits_of(b, bi, facts))
-            ok = st == "Ready" and applied and not partial and whole_iteration(b, v)
-            seen_parent = seen_parent or ok
-            res.instance("T1", "reload_until: every parent of an applied block is enqueued (status %s, after successful apply %s, whole set %s)" % (st, applied, not partial), b.loc(t.line))
-            if not ok:
-                res.violation("T1", "reload_until|parents-not-enqueued", "reload_until does not enqueue every parent of each successfully applied block", b.loc(t.line))
-        elif any(x[0] == "param" and x[1] == 2 for x in walk(v)):
-            ok = not partial and whole_iteration(b, v)
-            seen_heads = seen_heads or ok
-            res.instance("T1", "reload_until: every requested head is enqueued: %s" % ok, b.loc(t.line))
-            if not ok:
-                res.violation("T1", "reload_until|heads-not-enqueued", "reload_until does not enqueue every requested head", b.loc(t.line))
-    if not (seen_parent and seen_heads):
-        res.violation("T1", "reload_until|worklist-shape", "reload_until: enqueueing of parents (%s) / heads (%s) not found" % (seen_parent, seen_heads), b.loc())
-    # loop until empty: the loop condition is `!to_apply.is_empty()`, elements leave by pop_front only
+    # the work list: the collection elements are popped from; enqueue sites: push_back / push in a loop over X, extend(X-chain),
+    # or the initial collect() of an X-chain (X = the requested heads / the parents of an applied block)
     pops = [bi for bi, t in b.calls() if t.callee is not None and t.callee.name in ("pop_front", "pop_back", "pop")]
     worklist_vars = set()
-    for _, t in pushes:
-        inner = arg_term(b, t, 0, 6)
-        worklist_vars |= {x[1] for x in walk(inner) if x[0] == "var"}
+    for bi in pops:
+        inner = arg_term(b, b.blocks[bi].term, 0, 6)
+        x = inner
+        while x[0] in ("ref", "deref", "cast"):
+            x = x[1]
+        if x[0] == "var":
+            worklist_vars.add(x[1])
+
+    def on_worklist(t_):
+        x = t_
+        while x[0] in ("ref", "deref", "cast"):
+            x = x[1]
+        return x[0] == "var" and x[1] in worklist_vars
+    PART = {"take", "skip", "filter", "step_by", "take_while", "skip_while", "rev", "filter_map", "nth", "skip_last", "map_while", "find"}
+    enq = []      # (block, line, element/chain term, is_loop_push)
+    for bi, t in b.calls():
+        if t.callee is None or not t.args:
+            continue
+        if t.callee.name in ("push_back", "push", "push_front") and len(t.args) >= 2 and on_worklist(arg_term(b, t, 0, 6)):
+            enq.append((bi, t.line, arg_term(b, t, 1, 30), True))
+        elif t.callee.name == "extend" and len(t.args) >= 2 and on_worklist(arg_term(b, t, 0, 6)):
+            enq.append((bi, t.line, arg_term(b, t, 1, 30), False))
+        elif t.callee.name in ("collect", "from_iter", "from") and t.dest is not None and not t.dest.proj:
+            # the initial content: `let mut to_apply: VecDeque<_> = anchors.iter().cloned().collect();`
+            dl = t.dest.local
+            flows_to_wl = dl in worklist_vars or any(
+                st_.kind == "assign" and not st_.place.proj and st_.place.local in worklist_vars and st_.rv.kind == "use" and
+                st_.rv.operands()[0].local() == dl for blk_ in b.blocks for st_ in blk_.stmts)
+            if flows_to_wl:
+                enq.append((bi, t.line, arg_term(b, t, 0, 30), False))
+    pushes = [(bi, b.blocks[bi].term) for bi, _, _, _ in enq]
+    res.floor("T1", "work-list enqueue sites", len(enq), 2)
+    seen_parent = seen_heads = False
+    for bi, line, v, is_push in enq:
+        names = [callee_name(x) for x in walk(v, False) if x[0] == "call"]
+        partial = bool(set(names) & PART)
+        whole_ = (not partial) and (whole_iteration(b, v) if is_push else True)
+        if any(x[0] == "field" and x[2] == "parents" for x in walk(v)):
+            st = c02.status_guard(b, bi, facts)
+            applied = any(l.kind == "call" and l.says_ok() and l.term[2] and contains_call(l.term[2][0], R.name("applier"))
+                          for l in lits_of(b, bi, facts))
+            ok = st == "Ready" and applied and whole_
+            seen_parent = seen_parent or ok
+            res.instance("T1", "reload_until: every parent of an applied block is enqueued (status %s, after successful apply %s, whole set %s)" % (st, applied, whole_), b.loc(line))
+            if not ok:
+                res.violation("T1", "reload_until|parents-not-enqueued", "reload_until does not enqueue every parent of each successfully applied block", b.loc(line))
+        elif any(x[0] == "param" and x[1] == 2 for x in walk(v)):
+            ok = whole_
+            seen_heads = seen_heads or ok
+            res.instance("T1", "reload_until: every requested head is enqueued: %s" % ok, b.loc(line))
+            if not ok:
+                res.violation("T1", "reload_until|heads-not-enqueued", "reload_until does not enqueue every requested head", b.loc(line))
+    if not (seen_parent and seen_heads):
+        res.violation("T1", "reload_until|worklist-shape", "reload_until: enqueueing of parents (%s) / heads (%s) not found" % (seen_parent, seen_heads), b.loc())
+    # loop until empty: `while !to_apply.is_empty() { pop_front().unwrap() .. }` or `while let Some(x) = to_apply.pop_front()`;
+    # elements leave by pop only, the loop is left only when the list is empty
     cond_ok = False
+    pop_none_edges = set()
     for bi in pops:
         for l in lits_of(b, bi, facts):
-            if l.kind == "call" and callee_name(l.term) == "is_empty" and l.truth is False and ({x[1] for x in walk(l.term[2][0]) if x[0] == "var"} & worklist_vars):
+            if l.kind == "call" and callee_name(l.term) == "is_empty" and l.truth is False and l.term[2] and on_worklist(l.term[2][0]):
+                cond_ok = True
+    for e_, l in all_edge_lits(b, facts):
+        if l.kind == "variant" and l.variants in ({"Some"}, {"None"}) and peel(l.term)[0] == "call" and peel(l.term)[3] in pops:
+            if l.variants == {"Some"}:
                 cond_ok = True
     applies = [(bi, t) for bi, t in b.calls() if t.callee is not None and t.callee.name == R.name("applier")]
     other_exits = []
@@ -85,7 +120,8 @@ def run(facts, res):
                 for y in cfg.block_succs(x):
                     if y not in loop and b.blocks[y].term.kind != "unreachable":
                         lits = [l for l in lits_of(b, y, facts)]
-                        if not any(l.kind == "call" and callee_name(l.term) == "is_empty" and l.truth is True for l in lits):
+                        if not any((l.kind == "call" and callee_name(l.term) == "is_empty" and l.truth is True) or
+                                   (l.kind == "variant" and l.variants == {"None"} and peel(l.term)[0] == "call" and peel(l.term)[3] in pops) for l in lits):
                             other_exits.append((x, y))
     res.instance("T1", "reload_until: work-list loop runs while !to_apply.is_empty() (%s), no other exit (%d)" % (cond_ok, len(other_exits)), b.loc())
     if not cond_ok or other_exits:
@@ -108,6 +144,9 @@ def run(facts, res):
         e, hdr, body_blocks = val_entry
 
         def known(l):
+            if l.kind == "variant" and l.variants == {"Some"}:
+                pt_ = peel(l.term)
+                return pt_[0] == "call" and callee_name(pt_) == "get" and pt_[2] and any(x[0] == "field" and x[2] == "deltas" for x in walk(pt_[2][0]))
             return l.kind == "call" and callee_name(l.term) == "contains_key" and l.truth is True and any(x[0] == "field" and x[2] == "deltas" for x in walk(l.term[2][0]))
 
         def ready(l):
